@@ -11,12 +11,15 @@ namespace Liquer
 
 /-! ### classes of queries and texts an evaluation stays in -/
 
-/-- link arguments of a parameter list: their queries are in the class `C`; the text a relative link is
-evaluated as (`parse(parent_query) + link`, encoded) is in the class `T` of texts -/
+/-- link arguments of a parameter list: a link that is evaluated as its own query (absolute, or no parent) is
+in the class `C`; the text a relative link is evaluated as (`parse(parent_query) + link`, encoded) is in the
+class `T` of texts -/
 def LinksIn (env : Env) (C : Query → Prop) (T : Str → Prop) (parent : Str) (ps : List Param) : Prop :=
   ∀ lq pos, Param.link lq pos ∈ ps →
-    C lq ∧ ∀ h as f ab pq, lq = .mk [.transform h as f] ab → parse env.dec parent = some pq →
-      T ((Query.mk (pq.segments ++ [.transform h as f]) pq.absolute).encode Gen.escapeTable)
+    ((lq.absolute || parent.isEmpty || parent == ['/']) = true → C lq) ∧
+    ((lq.absolute || parent.isEmpty || parent == ['/']) = false →
+      ∀ h as f ab pq, lq = .mk [.transform h as f] ab → parse env.dec parent = some pq →
+        T ((Query.mk (pq.segments ++ [.transform h as f]) pq.absolute).encode Gen.escapeTable))
 
 /-- the texts the command of an action may sub-evaluate are in `T` -/
 def SubIn (env : Env) (T : Str → Prop) (a : Action) : Prop :=
@@ -24,11 +27,11 @@ def SubIn (env : Env) (T : Str → Prop) (a : Action) : Prop :=
     cmdSem sig.ns sig.name input vars args = .subeval x qt → T qt
 
 /-- a class `C` of queries and a class `T` of texts closed under everything an evaluation descends into:
-predecessors, link arguments and sub-evaluated texts of the last action, and the queries the texts of `T`
+non-empty predecessors, link arguments and sub-evaluated texts of the last action, and the queries the texts of `T`
 parse to.  (`C = T = everything` is closed; so is the chain of predecessors of a link-free, `sub`-free query with
 `T = ∅`.) -/
 structure Closed (env : Env) (C : Query → Prop) (T : Str → Prop) : Prop where
-  pred : ∀ q p r, C q → q.predecessor = some (p, r) → C p
+  pred : ∀ q p r, C q → q.predecessor = some (p, r) → p.segments.isEmpty = false → C p
   act : ∀ q p h a, C q → q.predecessor = some (p, some (.transform h [a] none)) →
     LinksIn env C T q.preParent a.params ∧ SubIn env T a
   text : ∀ t q, T t → parse env.dec t = some q → C q
@@ -151,17 +154,20 @@ theorem call_refines {env : Env} {C : Query → Prop} {T : Str → Prop} {n : Na
 /-! ### link arguments -/
 
 theorem link_refines {env : Env} {C : Query → Prop} {T : Str → Prop} {n : Nat} (ih : RefAt env C T n) (w : World) (lq : Query)
-    (parent : Str) (hS : Sound env w) (hC : C lq)
-    (hT : ∀ h as f ab pq, lq = .mk [.transform h as f] ab → parse env.dec parent = some pq →
+    (parent : Str) (hS : Sound env w)
+    (hC : (lq.absolute || parent.isEmpty || parent == ['/']) = true → C lq)
+    (hT : (lq.absolute || parent.isEmpty || parent == ['/']) = false →
+      ∀ h as f ab pq, lq = .mk [.transform h as f] ab → parse env.dec parent = some pq →
       T ((Query.mk (pq.segments ++ [.transform h as f]) pq.absolute).encode Gen.escapeTable)) :
     Refines env w (evalLink env n w lq parent).1 (evalLink env n w lq parent).2 (fun m => refLink env m lq parent) := by
   unfold evalLink refLink
   split
-  · exact ih.q w lq _ .none none true hS hC (fun _ => rfl)
-  · split
+  · next hc => exact ih.q w lq _ .none none true hS (hC hc) (fun _ => rfl)
+  · next hc =>
+    split
     · split
       · exact ⟨hS, by simp⟩
-      · next pq hpq => exact ih.text w _ true hS (hT _ _ _ _ _ rfl hpq)
+      · next pq hpq => exact ih.text w _ true hS (hT (by simpa using hc) _ _ _ _ _ rfl hpq)
     · exact ⟨hS, by simp⟩
 
 /-! ### parameters -/
@@ -346,9 +352,9 @@ theorem pre_refines {env : Env} {C : Query → Prop} {T : Str → Prop} {n : Nat
   split
   · exact ⟨hS, fun _ => ⟨0, [], by simp, by simp, Outcome.sim_refl _⟩⟩
   · next p hp =>
-    obtain ⟨r, hpr, _⟩ := Query.preQ_some hp
+    obtain ⟨r, hpr, hpe⟩ := Query.preQ_some hp
     exact (ih.q (w.storeMeta raw (s "evaluating parent")) p _ .none input uc (hS.storeMeta _ _)
-      (hC.pred q p r hCq hpr) huc).of_calls_eq (by simp)
+      (hC.pred q p r hCq hpr hpe) huc).of_calls_eq (by simp)
 
 /-- a state that is, up to status, the successful cacheable reference value of `q` (under any spelling and
 extra parameters) may be stored under the canonical text of `q`: this is where `CanonStore` is used -/
